@@ -12,6 +12,7 @@ CHECKS["X01"] = "harness.x01"      # growth beyond the listed properties (no MAN
 CHECKS["X02"] = "harness.x02"
 CHECKS["X03"] = "harness.x03"
 CHECKS["X04"] = "harness.x04"
+CHECKS["X05"] = "harness.x05"
 
 
 def main(argv=None) -> int:
